@@ -664,6 +664,7 @@ static Type *array_dimensions(Token **rest, Token *tok, Type *ty) {
 
   if (ty->kind == TY_VLA || !is_const_expr(expr))
     return vla_of(ty, expr);
+
   return array_of(ty, eval(expr));
 }
 
@@ -2976,6 +2977,10 @@ static Type *struct_union_decl(Token **rest, Token *tok) {
 }
 
 // struct-decl = struct-union-decl
+static int64_t align_to64(int64_t n, int64_t align) {
+  return (n + align - 1) / align * align;
+}
+
 static Type *struct_decl(Token **rest, Token *tok) {
   Type *ty = struct_union_decl(rest, tok);
   ty->kind = TY_STRUCT;
@@ -2983,37 +2988,44 @@ static Type *struct_decl(Token **rest, Token *tok) {
   if (ty->size < 0)
     return ty;
 
-  // Assign offsets within the struct to members.
-  int bits = 0;
+  // Assign offsets within the struct to members. The position is
+  // counted in bits, which overflows an int at 256 MiB, long before
+  // the byte offsets that are kept in an int do.
+  int64_t bits = 0;
 
   for (Member *mem = ty->members; mem; mem = mem->next) {
     if (mem->is_bitfield && mem->bit_width == 0) {
       // Zero-width anonymous bitfield has a special meaning.
       // It affects only alignment.
-      bits = align_to(bits, mem->ty->size * 8);
+      bits = align_to64(bits, mem->ty->size * 8);
     } else if (mem->is_bitfield) {
       int sz = mem->ty->size;
       if (bits / (sz * 8) != (bits + mem->bit_width - 1) / (sz * 8))
-        bits = align_to(bits, sz * 8);
+        bits = align_to64(bits, sz * 8);
 
       mem->offset = align_down(bits / 8, sz);
       mem->bit_offset = bits % (sz * 8);
       bits += mem->bit_width;
     } else {
       if (!ty->is_packed)
-        bits = align_to(bits, mem->align * 8);
+        bits = align_to64(bits, mem->align * 8);
       else
-        bits = align_to(bits, 8);
+        bits = align_to64(bits, 8);
       mem->offset = bits / 8;
-      bits += mem->ty->size * 8;
+      bits += (int64_t)mem->ty->size * 8;
     }
 
     if (!ty->is_packed && ty->align < mem->align &&
         !(mem->is_bitfield && !mem->name))
       ty->align = mem->align;
+
+    if (bits / 8 > 0x7fffffffL)
+      error_tok(tok, "struct is too large");
   }
 
-  ty->size = align_to(bits, ty->align * 8) / 8;
+  if (align_to64(bits, ty->align * 8) / 8 > 0x7fffffffL)
+    error_tok(tok, "struct is too large");
+  ty->size = align_to64(bits, ty->align * 8) / 8;
   return ty;
 }
 
